@@ -627,6 +627,9 @@ struct State {
     write_limit: usize,
     /// `Read::read` hands out at most this many bytes per call (0 = no limit)
     read_limit: usize,
+    /// the next `RandomAccessFile::append` calls on files of this class take at most `.1` bytes and say so (`.2` calls left)
+    short_append: Option<(PathClass, usize, u64)>,
+    short_appends_done: u64,
     /// set by `enter2` for the call in progress
     short_write_now: bool,
     fault_first_fired_at: Option<u64>,
@@ -738,6 +741,17 @@ impl SimFs {
     /// buffer size"). `read_from` is not limited.
     pub fn set_read_limit(&self, limit: usize) {
         self.shared.state.lock().read_limit = limit;
+    }
+
+    /// The next `calls` calls of `RandomAccessFile::append` on files of `class` append only the first
+    /// `limit` bytes of their buffer and return `Ok(limit)` - a short write, truthfully reported.
+    pub fn set_short_append(&self, class: PathClass, limit: usize, calls: u64) {
+        let mut st = self.shared.state.lock();
+        st.short_append = if calls > 0 { Some((class, limit, calls)) } else { None };
+    }
+
+    pub fn short_appends_done(&self) -> u64 {
+        self.shared.state.lock().short_appends_done
     }
 
     pub fn set_write_limit(&self, limit: usize) {
@@ -1065,7 +1079,21 @@ impl ReadonlyRandomAccessFile for SimFile {
 
 impl RandomAccessFile for SimFile {
     fn append(&mut self, buf: &[u8]) -> io::Result<usize> {
-        self.write_at_cursor(buf, true)
+        let limit = {
+            let mut st = self.fs.shared.state.lock();
+            match st.short_append {
+                Some((class, limit, calls)) if class == self.class && buf.len() > limit => {
+                    st.short_append = if calls > 1 { Some((class, limit, calls - 1)) } else { None };
+                    st.short_appends_done += 1;
+                    Some(limit)
+                }
+                _ => None,
+            }
+        };
+        match limit {
+            Some(n) => self.write_at_cursor(&buf[..n], true),
+            None => self.write_at_cursor(buf, true),
+        }
     }
 }
 
